@@ -93,8 +93,49 @@ def gen_program(rng, i):
     it.versions = vers
     final_keys = [1, 2, 3] if rng.random() < 0.85 else rng.sample([1, 2, 3], 2)
     prog.append({"op": "sign_write", "keys": final_keys, "publish": "all", "link": rng.random() < 0.3})
+    second = None
+    if rng.random() < 0.45 and inadequate is None and len(final_keys) == 3:
+        # a second generation: the written repository is loaded into a new editor, targets the roles already hold
+        # are updated, removed, or updated and then removed; new ones are added and removed again
+        second = []
+        prog.append({"op": "from_repo"})
+        def edit_names(holder, label):
+            for nm in list(holder):
+                what = rng.choice(["keep", "keep", "update", "remove", "update-remove", "remove-add"])
+                if what in ("update", "update-remove"):
+                    c = content_for(rng, "%s-upd-%d" % (label, len(second)))
+                    prog.append({"op": "add_target", "name": nm, "content": c})
+                    holder[nm] = c
+                if what in ("remove", "update-remove", "remove-add"):
+                    prog.append({"op": "remove_target", "name": nm})
+                    holder.pop(nm, None)
+                if what == "remove-add":
+                    c = content_for(rng, "%s-readd-%d" % (label, len(second)))
+                    prog.append({"op": "add_target", "name": nm, "content": c})
+                    holder[nm] = c
+                second.append((nm, what))
+        edit_names(it.top, "top")
+        if rng.random() < 0.5:
+            prog.append({"op": "add_target", "name": "fresh.txt", "content": "fresh"})
+            prog.append({"op": "remove_target", "name": "fresh.txt"})
+        first = next((n for n, r in it.roles.items() if r["parent"] == "targets"), None)
+        if first is not None and it.roles[first]["targets"] and len(it.roles[first]["targets"]) < 10 \
+                and it.roles[first]["threshold"] <= len(it.roles[first]["keys"]):
+            prog.append({"op": "change_delegated_targets", "role": first})
+            edit_names(it.roles[first]["targets"], first)
+            nv = it.roles[first]["version"] + 5
+            prog.append({"op": "versions", "targets": nv})
+            prog.append({"op": "expires", "targets": 86400 * 43})
+            it.roles[first]["version"] = nv
+            prog.append({"op": "sign_targets_editor", "keys": it.roles[first]["keys"]})
+            prog.append({"op": "change_delegated_targets", "role": "targets"})
+        vers = (vers[0] + 1, vers[1] + 1, vers[2] + 1)
+        prog.append({"op": "versions", "targets": vers[0], "snapshot": vers[1], "timestamp": vers[2]})
+        prog.append({"op": "expires", "targets": 86400 * 50, "snapshot": 86400 * 51, "timestamp": 86400 * 52})
+        it.versions = vers
+        prog.append({"op": "sign_write", "keys": final_keys, "publish": "all", "link": False})
     prog.append({"op": "load"})
-    return prog, it, cs, {"inadequate": inadequate, "final_keys": final_keys}
+    return prog, it, cs, {"inadequate": inadequate, "final_keys": final_keys, "second_generation": second}
 
 
 def cross_party(rng, i):
@@ -247,6 +288,9 @@ def run(chk):
             signed_ok = all(r[0] == 0 for r in res[info["update_index"]:sw + 1])
         if not signed_ok:
             chk.count("editor-refused")
+            bad = next((k for k, r in enumerate(res[:sw + 1]) if r[0] != 0), None)
+            if bad is not None:
+                chk.count("refused-at-%s%s" % (ops[bad], "-2nd" if "from_repo" in ops[:bad] else ""))
             continue
         load = res[-1]
         check_meta_exact(chk, o["final_files"], cs, full)
